@@ -58,11 +58,32 @@ def _concrete_one(inp):
     i["kind"] = kind if kind in proc.KINDS else "non_ideal_non_isothermal_process"
     if not realrun.admissible_process(i):
         i.update({"A": 0.05, "T0": 330.0, "m0": 3.0, "x0": 0.35, "dt": 0.2})
+    bad = []
+    if inp.get("p0_units"):
+        # supplied initial permeances in SI / GPU: step 0 must reproduce them (converted with each component's own molar mass)
+        from pyvaporation.permeance.permeance import Units
+        mix = realrun.mixture_of(i)
+        kg = (0.05, 0.001)
+        P0 = (pv.Permeance(kg[0]).convert(inp["p0_units"], mix.first_component), pv.Permeance(kg[1]).convert(inp["p0_units"], mix.second_component))
+        from pyvaporation.pervaporation.pervaporation import Pervaporation as P_
+        pz0 = P_(realrun.membrane_for(mix), mix)
+        curves = realrun.curve_set(mix, i.get("n_curves", 2))
+        kw = dict(conditions=realrun.conditions_of(i, mix), diffusion_curve_set=curves, number_of_steps=2, delta_hours=i["dt"], initial_permeances=P0, n_first=1, n_second=1)
+        if len(curves.diffusion_curves) > 1:
+            kw.update(m_first=1, m_second=1)
+        try:
+            m0 = getattr(pz0, i["kind"])(**kw)
+            for j in (0, 1):
+                if not close(m0.permeances[0][j].value, kg[j], 1e-9):
+                    bad.append("initial permeance%d supplied as %r %s (= %r kg/(m2 h kPa)) but step 0 uses %r" % (j + 1, float(P0[j].value), inp["p0_units"], kg[j], float(m0.permeances[0][j].value)))
+        except ValueError:
+            pass
+        if bad:
+            return {"ok": False, "detail": "%s: %s" % (i["kind"], "; ".join(bad)), "inputs": i}
     try:
         m, cond, pz = realrun.process(i)
     except ValueError as e:
         return {"ok": True, "detail": "run rejected: %s" % e}
-    bad = []
     iso = "non_isothermal" not in i["kind"]
     fits = m.permeance_fits
     w0 = m.feed_compositions[0].p
@@ -159,15 +180,20 @@ def processes(job, kind, mode, tier):
              "HVAP/CP/COOL")
     job.assume("Permeance clamp and Composition validator as assumptions", "fit values > 0 is NOT assumed", "domain of C01")
     iso = "non_isothermal" not in kind
+    from pyvaporation.permeance.permeance import Units
+    from .C14 import factor
     for n_curves in (1, 2):
-        for init_perm in (False, True):
+        for init_perm in (False, True, Units.SI, Units.GPU):
             for basis in ("weight", "molar"):
                 if tier == "quick" and basis == "molar" and init_perm and n_curves == 2:
                     continue
-                ps = proc.ProcSetup(kind, mode, basis, None, N, n_curves=n_curves, initial_permeances=init_perm)
+                if tier == "quick" and init_perm in (Units.SI, Units.GPU) and (basis == "molar" or (n_curves == 1) != (init_perm == Units.SI)):
+                    continue  # quick: SI with one curve, GPU with two curves, mass-fraction feed
+                p0u = init_perm if init_perm in (Units.SI, Units.GPU) else None
+                ps = proc.ProcSetup(kind, mode, basis, None, N, n_curves=n_curves, initial_permeances=bool(init_perm), p0_units=p0u)
                 dom = ps.domain()
-                inputs = dict(ps.inputs(), kind=kind)
-                tag = "C05/%s/%s/c%d/ip%d/%s" % (proc.SHORT[kind], mode, n_curves, int(init_perm), basis)
+                inputs = dict(ps.inputs(), kind=kind, p0_units=p0u)
+                tag = "C05/%s/%s/c%d/ip%s/%s" % (proc.SHORT[kind], mode, n_curves, {False: "0", True: "1", Units.SI: "SI", Units.GPU: "GPU"}[init_perm], basis)
                 with Patches() as pt:
                     ps.install(pt, name_state=True)
                     got = 0
@@ -187,7 +213,9 @@ def processes(job, kind, mode, tier):
                             f0 = fit_value(fits[i], w0, T0)
                             P0 = lift(m.permeances[0][i].value)
                             if init_perm:
-                                job.prove(tag + "/step0_is_supplied_permeance%d" % (i + 1), cs, P0 != lift(ps._P00[i][0]), R_, inputs, congruence=["EXP"])
+                                Mi = ps.M1 if i == 0 else ps.M2
+                                supplied_kg = lift(ps._P00[i][0]) if p0u is None else lift(ps._P00[i][0]) * factor(p0u, Mi) / factor(Units.kg_m2_h_kPa, Mi)
+                                job.prove(tag + "/step0_is_supplied_permeance%d" % (i + 1), cs, P0 != supplied_kg, R_, inputs, congruence=["EXP"])
                             else:
                                 job.prove(tag + "/step0_is_fit%d" % (i + 1), cs, P0 != f0, R_, inputs, congruence=["EXP"], near=2)
                             for k in range(1, N):
